@@ -317,6 +317,11 @@ def classify_bash_diff(c, cr, b):
     return None
 
 
+def globby(c):
+    v = c.value if isinstance(c.value, str) else ""
+    return "f" not in c.opts and (any(ch in v for ch in "*?[\\") or re.search(r"[+@!]\(", v) is not None)
+
+
 def nontrivial(c):
     v = c.value if isinstance(c.value, str) else "".join(c.value)
     return any(ch not in "aé" for ch in v)
@@ -328,7 +333,15 @@ def run(ctx):
     # second opinion for the unquoted templates: bash
     unq = [i for i, c in enumerate(cases) if c.tag.startswith("unq") and c.ctx in ("arg", "arrelem")
            and not (c.ifs is not None and any(ch not in WS for ch in c.ifs))]
-    svb = bash_check(cases, code_results, unq, specv, ctx)
+    # pathname MATCHING proper is C08's subject: bash is binding here only where no glob character can
+    # play (value without * ? [ \\ and extglob openers, or set -f); the rest is reported as information
+    strict = [i for i in unq if not globby(cases[i])]
+    loose = [i for i in unq if globby(cases[i])]
+    svb = bash_check(cases, code_results, strict, specv, ctx)
+    info = []
+    svb_loose = bash_check(cases, code_results, loose, info, ctx)
+    svb["with_glob_characters_informational"] = {"compared": svb_loose["compared"], "differ": svb_loose["differ"],
+                                                 "examples": [v["input"] for v in info[:5]]}
     # extraction cross-check
     k = min(40, len(mfields))
     pick = ctx.rng.sample(range(len(mfields)), k)
@@ -378,7 +391,7 @@ def search(ctx, res):
                 specv.append(v)
         unq = [i for i, c in enumerate(cases) if c.tag.startswith("unq") and c.ctx in ("arg", "arrelem")
                and not (c.ifs is not None and any(ch not in WS for ch in c.ifs))]
-        bash_check(cases, code_results, unq[:4000], specv, ctx)
+        bash_check(cases, code_results, [i for i in unq if not globby(cases[i])], specv, ctx)
         specv.sort(key=lambda v: (1 if v.get("known") else 0, len(repr(v["input"]["value"]))))
         return {"evaluations": len(cases), "spec_violations": specv[:8]}
     finally:
